@@ -258,6 +258,24 @@ def check_error_objects_read_only(P, R, rid):
                              f'`{short(st)}` writes into the object received as `{b.id}`: the errors in config.errors_map are single instances shared by all '
                              f'requests, so what one request stores there (e.g. a JSON content type) is sent with later responses',
                              why='nothing set while serving an earlier request may appear in a later response', key_extra=f'{name}:{b.id}')
+    # the page renderer gets the same (possibly shared) error object
+    rn = P.funcs.get('ombott.error_render:render')
+    if rn is not None and rn.params:
+        ep = rn.params[0]
+        for st in walk_shallow(rn.node):
+            tg = st.targets if isinstance(st, ast.Assign) else ([st.target] if isinstance(st, ast.AugAssign) else [])
+            for t in tg:
+                b = t
+                while isinstance(b, (ast.Attribute, ast.Subscript)):
+                    b = b.value
+                if isinstance(t, (ast.Attribute, ast.Subscript)) and isinstance(b, ast.Name) and b.id == ep:
+                    ns = rn.cfg.node_of_stmt(st)
+                    if ns and all(d.kind == 'param' for d in rn.rd.at(ns[0], ep)):
+                        n_ += 1
+                        R.ob(rid, rn, st, False, detail=
+                             f'`{short(st)}` rewrites the error object it renders: the errors in config.errors_map are single instances shared by all requests and threads, so each '
+                             f'rendering transforms the text again (escaped twice, three times ...) and the page depends on how many other requests hit the same error',
+                             why='nothing done while serving another request may appear in this response', key_extra=f'render:{ep}')
     R.ob(rid, app.fq, None, True, text=f'request-path methods of Ombott do not store into the objects they are handed ({n_} store(s) found)', nontrivial=False)
 
 
